@@ -166,6 +166,9 @@ def probe_cases(rng):
 
 def run_oracle(chk, rng, ncases):
     cases = probe_cases(rng) + stage_lin.gen_cases(rng, ncases)
+    rp = replay_input()
+    if rp and rp['kind'] == 'spec':
+        cases.insert(0, dict(id=2 * 10 ** 6, seed=1, spec=json.loads(json.dumps(dict(rp['value'], sources=[], loads=[]))), probe=rp['value'].get('family', '').startswith('probe')))
     shards = [cases[k::NCPU] for k in range(NCPU) if cases[k::NCPU]]
     res = run_workers('dload.oracle', [dict(cases=s) for s in shards])
     n = 0
